@@ -1,6 +1,7 @@
 """The scripted host application: parser slots with variables, custom functions and
 listeners whose behaviour is a JSON script (so it goes into replay files verbatim)."""
 import threading
+import zlib
 from collections import Counter
 
 from . import canon as C
@@ -262,6 +263,16 @@ class World(object):
         if d > self.max_depth:
             self.max_depth = d
         try:
+            if _in_handler(d, formula):
+                # a host that evaluates from inside an exception handler (`try: table[key]` / `except KeyError:
+                # evaluate a default formula`): sys.exc_info() is set for the whole call, bare `raise` would find an
+                # exception, everything raised inside gets a __context__.  Decided by nesting depth + formula text, no
+                # PRNG draw; a solo reference of a nested formula runs at another depth, so usually in the other context
+                self.fired['evaluate_inside_except_handler'] += 1
+                try:
+                    raise KeyError('miss')
+                except KeyError:
+                    return slot.parser.parse(formula)
             return slot.parser.parse(formula)
         finally:
             self.depths[tid] = d - 1
@@ -432,6 +443,14 @@ class World(object):
         raise AssertionError('unknown action %r' % a)
 
 
+
+
+def _in_handler(depth, formula):
+    try:
+        data = ('%d|%s' % (depth, formula)).encode('utf-8', 'surrogatepass')
+    except Exception:
+        return False
+    return zlib.crc32(data) % 3 == 0
 
 
 def nested_value(res):
